@@ -34,7 +34,7 @@ def _mark_cache(g: dict, rng: random.Random) -> None:
 
 
 def gen_case(rng: random.Random, tier: str) -> dict:
-    g = gen.gen_program(rng, max_nodes=6, feats={**gen.gen_feats(rng), "gens": rng.random() < 0.3})
+    g = gen.gen_program(rng, max_nodes=8 if tier == "thorough" else 6, feats={**gen.gen_feats(rng), "gens": rng.random() < 0.3})
     cache = rng.random() < 0.35
     if cache:
         _mark_cache(g, rng)
